@@ -271,7 +271,9 @@ fn compute_topic_filter_properties(topic: &str) -> TopicFilterProperties {
     let mut has_share_prefix = false;
     let mut has_share_name = false;
     let mut seen_mlw = false;
+    let mut segment_count = 0;
     for (index, segment) in  topic.split('/').enumerate() {
+        segment_count = index + 1;
         if seen_mlw {
             properties.is_valid = false;
             break;
@@ -300,6 +302,12 @@ fn compute_topic_filter_properties(topic: &str) -> TopicFilterProperties {
             properties.is_valid = false;
             break;
         }
+    }
+
+    // a filter that starts with "$share/" must be a well-formed shared subscription filter:
+    // $share/{ShareName}/{filter} with a non-empty, wildcard-free ShareName and a non-empty filter
+    if properties.is_valid && has_share_prefix && segment_count > 1 && !properties.is_shared {
+        properties.is_valid = false;
     }
 
     properties
